@@ -11,7 +11,7 @@
   "meta_hist"           {init: <make step>, steps: [...]} -> {"init": res, "steps": [{"res", "reg", "last"}, ...]}
      every step carries the frame observed at that point ("frame") and a kind "k":
        units | get{name} | iter | header | json | add_column{name,unit?,dunit?,fmt?} | set_units{map}
-       | set_all_units{units} | set_col_unit{name,unit} | set_fmt{name,fmt?} | rewrap{units?,strict?} | finalize{srcs,strict}
+       | set_all_units{units} | set_col_unit{name,unit} | set_fmt{name,fmt?} | set_strict{b} | rewrap{units?,strict?} | finalize{srcs,strict}
        | make{units?,unit_map?,strict} | peek
      every step may carry "t": the index of the table it addresses (default: the newest).  A successful
      rewrap / finalize / make appends a new table (a sibling with its own register); the old ones stay alive.
@@ -107,7 +107,8 @@ def optErrToJson : Option Err → Json
 def pairsToJson (ps : List (Str × Str)) : Json := arr (ps.map (fun p => arr [str p.1, str p.2]))
 
 def stepOut (i : Info) (res : Json) : Json :=
-  Json.mkObj [("res", res), ("reg", regToJson i.reg), ("last", Json.bool i.last.isSome)]
+  Json.mkObj [("res", res), ("reg", regToJson i.reg), ("last", Json.bool i.last.isSome),
+              ("ls", if i.last.isSome then Json.bool i.lastStrict else Json.null), ("strict", Json.bool i.strict)]
 
 def makeOfJson (j : Json) (f : Frame) : Except String (Except Err Info) := do
   let us ← getOptStrList j "units"
@@ -159,6 +160,9 @@ def metaStep (i : Info) (j : Json) : Except String (Info × Option Info × Json)
   | "set_fmt" =>
     let (i1, e) := setColFmt i f (← getStr j "name") (← getOptStr j "fmt")
     pure (i1, none, optErrToJson e)
+  | "set_strict" =>
+    let b ← getBool j "b"
+    pure ({ i with strict := b }, none, Json.null)
   | "rewrap" =>
     let us ← getOptStrList j "units"
     let st ← getOptBool j "strict"
